@@ -121,3 +121,21 @@ func verifCanonicalPair(x, y Decimal) (Decimal, Decimal, bool) {
 	eq := x.Equal(y)
 	return cx, cy, eq
 }
+
+// verifCmpCohort: comparisons of two encodings x, x2 of one value against the same y.
+func verifCmpCohort(x, x2, y Decimal) (a, b CmpResult, c, d int, e, f bool) {
+	a = x.Cmp(y)
+	b = x2.Cmp(y)
+	c = Compare(x, y)
+	d = Compare(x2, y)
+	e = x.Equal(y)
+	f = x2.Equal(y)
+	return a, b, c, d, e, f
+}
+
+// verifInt64Cohort: Int64 of two encodings of one value.
+func verifInt64Cohort(x, x2 Decimal) (a int64, aok bool, b int64, bok bool) {
+	a, aok = x.Int64()
+	b, bok = x2.Int64()
+	return a, aok, b, bok
+}
